@@ -544,13 +544,13 @@ def out7(units, R):
                 need = None
                 what = expr_str(wnode)[:70]
                 if wnode.get('k') == 'bin':
-                    i = const_val(strip_casts(wnode['l'])['i'])
-                    if i is None:
-                        R.ob('OUT7', fn, wnode, 'indexed store into sized block %s' % V, False, 'computed index', key='w:' + what)
+                    il = _lin(strip_casts(wnode['l'])['i'], env)
+                    if il is None:
+                        R.ob('OUT7', fn, wnode, 'indexed store into sized block %s' % V, False, 'index is not a linear expression', key='w:' + what)
                         continue
-                    need = (i + 1, {})
-                    if cur is None or _leq(cur, (i, {})):
-                        cur_after = (i + 1, {})   # bytes [0..i] defined; string continues at i+1
+                    need = _lin_add(il, (1, {}))
+                    if cur is None or _leq(cur, il):
+                        cur_after = need   # bytes [0..i] defined; string continues at i+1
                     else:
                         cur_after = cur
                     ok = _leq(need, size)
@@ -624,6 +624,8 @@ def out7(units, R):
                         R.ob('OUT7', fn, wnode, 'memcpy length', False, 'not linear', key='w:' + what)
                         continue
                     need = _lin_add(off, n_)
+                    if cur is None or _leq(cur, need):
+                        cur = need
                 ok = _leq(need, size)
                 R.ob('OUT7', fn, wnode, '%s fits the block of %s bytes' % (what, _fmt(size)), ok,
                      'writes at most %s bytes' % _fmt(need) if ok else 'may write %s bytes into %s' % (_fmt(need), _fmt(size)),
